@@ -18,6 +18,7 @@ func checkC06(c *Ctx) {
 		"the matching relation as a whole ('+', '#', literal and empty levels over the filter x topic space): it is a function of byte values; deciding it would mean evaluating the trie code on abstract topics, which is symbolic execution, not this family. Decided are the level-structure clauses the property names: '#' covers its parent level, the end-of-levels signal is unambiguous (empty levels are levels), levels are slices of the input",
 		"histories of subscribe / unsubscribe / retain beyond the per-operation invariant-maintenance shape")
 	c.useRules(ruleP4, ruleT5, ruleP5, ruleT4, ruleL1)
+	c.resultListsReset()
 	c.R.Rule("T8-levels-are-input-slices", "the level splitter returns, as the level and as the remainder, sub-slices of the topic it was given - never a fabricated level: levels are compared literally, so a level that is not taken from the input matches things the input does not say.")
 	c.levelSplitter()
 	c.sinsertContract()
